@@ -338,11 +338,21 @@ class Model:
                         continue
                     self.out.append(' %s="%s"' % (name, parts[0][1]))
                 self.out.append(">")
-            fv = self.ev(fe)
-            if n.get("translate"):
-                # i18n:translate="" on the element: the fallback value is
-                # passed through the translation function too
-                self.translate_call(fv)
+            # (the element's own i18n:domain / i18n:context hold for its
+            # fallback, those of elements inside do not)
+            saved_i18n = (self.i18n_domain, self.i18n_context)
+            if n.get("i18n_domain"):
+                self.i18n_domain = n["i18n_domain"]
+            if n.get("i18n_context"):
+                self.i18n_context = n["i18n_context"]
+            try:
+                fv = self.ev(fe)
+                if n.get("translate"):
+                    # i18n:translate="" on the element: the fallback value
+                    # is passed through the translation function too
+                    self.translate_call(fv)
+            finally:
+                self.i18n_domain, self.i18n_context = saved_i18n
             self.emit_value(fv, mode or "text")
             if tagged:
                 self.out.append("</" + n["tag"] + ">")
